@@ -452,3 +452,75 @@ def DYNAMIC_LABELS():
 
 LABELS = ["BS1", "AC1", "CB1", "NPF", "WW1", "WI1", "WI2", "DI1", "DI2", "BA1", "QS2a", "QS2b"] + rows()[1] + ["PP1.%s" % o for o in BINOPS]
 FUNCTIONS = ["binding_strength", "associativity", "can_bind_left", "needs_parenthesis", "write_within", "write_ident_part", "display_ident_part", "binary_arm", "next_odd_slice"]
+
+
+# ----------------------------------------------------------------------------- thorough tier: witness sweep on the real formatter
+SWEEP_DOC = ("for every (outer, inner, side) over the PRQL binary operators ** * / // % + - == != ~= < > <= >= ?? && || plus unary - and !, ranges and function calls: "
+             "the expression with explicit parentheses is formatted by the real `prqlc fmt`; the formatted text must compile to the same SQL as the original "
+             "(= it re-parses to the same tree) and formatting it again must not change it (validates the Pratt / formatter oracle of FP1 by execution)")
+
+_BIN = ["**", "*", "/", "//", "%", "+", "-", "==", "!=", "~=", "<", ">", "<=", ">=", "??", "&&", "||"]
+
+
+def _fmt(src):
+    import subprocess
+    import replaylib
+    r = subprocess.run([replaylib.prqlc_bin(), "fmt", "-"], input=src, capture_output=True, text=True, timeout=60)
+    return r.returncode == 0, (r.stdout if r.returncode == 0 else r.stderr + r.stdout)
+
+
+def sweep():
+    import replaylib
+    out = []
+    for o1 in _BIN:
+        exprs = []
+        for o2 in _BIN:
+            exprs.append(("L", o2, "(a %s b) %s c" % (o2, o1)))
+            exprs.append(("R", o2, "a %s (b %s c)" % (o1, o2)))
+        exprs += [("U", "neg", "-(a %s b)" % o1), ("U", "neg", "(-a) %s b" % o1), ("U", "not", "!(a %s b)" % o1),
+                  ("C", "call", "(f a) %s b" % o1), ("C", "call", "f (a %s b)" % o1), ("C", "call", "f a (b %s c)" % o1),
+                  ("G", "range", "(a %s b)..c" % o1), ("G", "range", "a..(b %s c)" % o1)]
+        src = "let f = x y:0 -> x\nfrom t\nselect {\n%s\n}\n" % "\n".join("  v%d = %s," % (i, e[2]) for i, e in enumerate(exprs))
+        ok0, sql0 = replaylib.compile_prql(src, "sql.sqlite")
+        if not ok0:
+            # some nestings are type errors or unsupported: fall back to one expression per query
+            for side, o2, e in exprs:
+                s1 = "let f = x y:0 -> x\nfrom t\nselect {v = %s}\n" % e
+                ok1, q1 = replaylib.compile_prql(s1, "sql.sqlite")
+                if not ok1:
+                    continue
+                out.append(_one(s1, q1, o1, o2, side))
+            continue
+        okf, f1 = _fmt(src)
+        if not okf:
+            out.append({"obligation": "prql_prec.FP1.sweep", "input": src, "failing": True, "expected": "formats", "observed": f1[:300], "replay_kind": "none"})
+            continue
+        ok2, sql2 = replaylib.compile_prql(f1, "sql.sqlite")
+        okg, f2 = _fmt(f1)
+        if ok2 and sql2 == sql0 and okg and f2 == f1:
+            out.append({"obligation": "prql_prec.FP1.%s" % o1, "input": "all nestings under `%s` (%d expressions)" % (o1, len(exprs)), "failing": False, "replay_kind": "none"})
+            continue
+        for side, o2, e in exprs:
+            s1 = "let f = x y:0 -> x\nfrom t\nselect {v = %s}\n" % e
+            ok1, q1 = replaylib.compile_prql(s1, "sql.sqlite")
+            if ok1:
+                out.append(_one(s1, q1, o1, o2, side))
+    return out
+
+
+def _one(src, sql0, o1, o2, side):
+    import replaylib
+    rec = {"obligation": "prql_prec.FP1.%s.%s.%s" % (o1, o2, side), "input": src, "replay_kind": "none"}
+    okf, f1 = _fmt(src)
+    if not okf:
+        rec.update(failing=True, expected="formats", observed=f1[:300])
+        return rec
+    ok2, sql2 = replaylib.compile_prql(f1, "sql.sqlite")
+    okg, f2 = _fmt(f1)
+    if not (ok2 and sql2 == sql0):
+        rec.update(failing=True, expected="the formatted program compiles to the same SQL", observed="formatted: %s -> %s" % (f1.strip().split("\n")[-1], (sql2 or "")[:200]))
+    elif not (okg and f2 == f1):
+        rec.update(failing=True, expected="formatting is idempotent", observed="%r then %r" % (f1[-120:], (f2 or "")[-120:]))
+    else:
+        rec.update(failing=False)
+    return rec
